@@ -135,6 +135,25 @@ def hash_order(ctx, floors=True):
                         ctx.expect(not bad, "C06.1", key, site(n), "(d) consumer writes only into SettingsValidationError lists (compared as sets by the property)",
                                    "consumer of a hash-ordered iterator writes elsewhere: " + "; ".join(bad))
                     break
+    # lists that are filled in hash order and are only meaningful as sets (the entries of SettingsValidationError) must not be post-processed by
+    # position: adjacent-only de-duplication, truncation, first / last, removal by index make the CONTENT depend on the arrival order
+    POSITIONAL = {"Vec::dedup", "Vec::dedup_by", "Vec::dedup_by_key", "Vec::truncate", "Vec::pop", "Vec::remove", "Vec::swap_remove", "Vec::drain", "Vec::split_off",
+                  "Vec::insert", "slice::first", "slice::last", "slice::first_mut", "slice::last_mut", "slice::reverse", "slice::get", "slice::split_first",
+                  "slice::split_last", "slice::windows", "slice::chunks", "slice::rotate_left", "slice::rotate_right"}
+    n_lists = 0
+    for c, b in P.all_bodies(LIBS):
+        if "body" not in b or q.derived(b):
+            continue
+        for n in walk(b["body"]):
+            if n.get("k") == "MethodCall":
+                rt = peel(n["recv"].get("adj") or n["recv"].get("ty", ""))
+                if rt.startswith("std::vec::Vec<(syn::Path, std::collections::HashSet<") or rt.startswith("[(syn::Path, std::collections::HashSet<"):
+                    n_lists += 1
+                    cs = cshort(n.get("callee", n["name"]))
+                    if cs in POSITIONAL:
+                        ctx.bad("C06.1", "set-compared-list/%s/%s" % (cshort(b["path"]), cs), site(n),
+                                "`%s` works by position on a list whose entries arrive in hash order and which is compared as a set: its content now depends on the arrival order" % cs)
+    ctx.counts["operations on set-compared lists"] = n_lists
     return sorted_locals
 
 
